@@ -58,6 +58,19 @@ def units(tier):
     return us
 
 
+def space_size(tier):
+    b = bounds(tier)
+    total = 0
+    for n in range(1, b["contains"]["max_len"] + 1):
+        total += 4 ** n * sum(4 ** l for l in range(0, n + 3))
+    for n in b["extra_contains"]["lens"]:
+        total += 2 ** n * sum(2 ** l for l in range(0, n + 3))
+    for n in b["slice_len"]:
+        total += 2 * (2 * n + 6) ** 2 * len(b["steps"])
+    total += 3 * 3 * len(OPERANDS) + 2 * len(TOPOLOGIES) * len(CTOR_FORMS) + len(SOURCES) * len(MUTATIONS) * 2
+    return total
+
+
 def run_unit(unit, st, tier):
     kind, arg = unit
     if kind == "contains":
